@@ -83,7 +83,13 @@ def run(ctx) -> None:
     # the tokenising pattern: a regex call with a constant pattern anywhere in the filter class (apply_on_rule, a helper it
     # delegates to, or a pattern compiled once at class level)
     fcls = prog.cls(F)
-    subs = [c for c in ast.walk(fcls.node) if isinstance(c, ast.Call) and call_name(c) in ("re.sub", "re.finditer", "re.findall", "re.compile", "re.split", "re.fullmatch", "re.match") and c.args]
+    RX_CALLS = ("re.sub", "re.finditer", "re.findall", "re.compile", "re.split", "re.fullmatch", "re.match")
+    subs = [c for c in ast.walk(fcls.node) if isinstance(c, ast.Call) and call_name(c) in RX_CALLS and c.args]
+    if not subs:
+        # … or in a function of the module that the class's methods call
+        helpers_ = [prog.funcs[q_] for q_ in ctx.cg.reachable([m_.qual for m_ in fcls.methods.values()]) if q_ in prog.funcs and prog.funcs[q_].module is fcls.module and prog.funcs[q_].cls is None]
+        subs = [c for h_ in helpers_ for c in ast.walk(h_.node) if isinstance(c, ast.Call) and call_name(c) in RX_CALLS and c.args]
+        subs += [c for st_ in fcls.module.tree.body if isinstance(st_, (ast.Assign, ast.AnnAssign)) for c in ast.walk(st_) if isinstance(c, ast.Call) and call_name(c) in RX_CALLS and c.args]
     pats = []
     for c in subs:
         arg0 = c.args[0]
